@@ -76,6 +76,10 @@ func NewProxy() *Proxy {
 			Proxy:                 http.ProxyFromEnvironment,
 			TLSHandshakeTimeout:   10 * time.Second,
 			ExpectContinueTimeout: time.Second,
+			// Relay content codings end to end. Otherwise the transport asks origins for
+			// gzip on its own and hands back a decoded body of unknown length, which is
+			// written to the client without any framing on a connection that stays open.
+			DisableCompression: true,
 		},
 		timeout: 5 * time.Minute,
 		closing: make(chan bool),
